@@ -250,9 +250,9 @@ def run_case(case, ctx):
 		for (name, arg, extra), r in zip(calls, res):
 			b = arg.encode('latin-1')
 			if name == 'kmer_to_index':
-				exp = R.ref_index(b)
+				exp = R.ref_index(b) if len(b) <= 32 else None          # longer than 32: rejected, as any other invalid k-mer
 			elif name == 'kmer_to_index_rc':
-				exp = None if R.ref_index(b) is None else R.ref_index(R.ref_revcomp(b))
+				exp = None if (R.ref_index(b) is None or len(b) > 32) else R.ref_index(R.ref_revcomp(b))
 			elif name == 'revcomp':
 				exp = R.ref_revcomp(b).decode('latin-1')
 			elif name == 'index_to_kmer':
@@ -299,7 +299,7 @@ def strategy(tier):
 	too_long = st.integers(33, 80).flatmap(lambda k: st.text(alphabet='ACGTacgt', min_size=k, max_size=k)).map(
 		lambda s: {'kind': 'too_long', 'kmer': s})
 	kmer_any = st.integers(1, 32).flatmap(lambda k: st.text(alphabet='ACGTacgt', min_size=k, max_size=k))
-	bad_kmer = st.text(alphabet='ACGTNacgt-', min_size=1, max_size=12)
+	bad_kmer = st.one_of(st.text(alphabet='ACGTNacgt-', min_size=1, max_size=12), st.integers(33, 40).flatmap(lambda n: st.text(alphabet='ACGT', min_size=n, max_size=n)))
 	call = st.one_of(
 		st.tuples(st.just('kmer_to_index_rc'), st.one_of(kmer_any, bad_kmer), st.none()).map(list),
 		st.tuples(st.just('kmer_to_index'), st.one_of(kmer_any, bad_kmer), st.none()).map(list),
